@@ -79,10 +79,13 @@ struct verif_wit nondet_wit(void);
 /* An arbitrary NUL-terminated string of len <= maxlen (<= 12) non-NUL bytes in an allocation of EXACTLY len+1 bytes, so that
  * a read past the terminating NUL is a refuted pointer check (a fixed-size buffer would hide over-reads of short strings).
  * One constant-size allocation per length: a malloc of symbolic size is far more expensive for the SAT back end. */
-static char *verif_exact_string(size_t maxlen)
+static char *verif_exact_string_of(size_t maxlen, size_t want);
+static char *verif_exact_string(size_t maxlen) { return verif_exact_string_of(maxlen, (size_t)-1); }
+/* want != (size_t)-1: exactly `want` bytes (the caller makes sure want <= maxlen) */
+static char *verif_exact_string_of(size_t maxlen, size_t want)
 {
   size_t len = nondet_size_t(), i; char *s;
-  __CPROVER_assume(len <= maxlen && maxlen <= 12);
+  __CPROVER_assume(len <= maxlen && maxlen <= 12 && (want == (size_t)-1 || len == want));
   /* if-chain guarded by the (constant) maxlen: symbolic execution prunes the allocations a call site cannot use */
   if (len == 0) s = malloc(1);
   else if (maxlen >= 1 && len == 1) s = malloc(2);
